@@ -928,7 +928,7 @@ func (fc *fnCtx) loadH(h heap, t types.Type, ref, off string, guard string) *val
 			if n > 1 {
 				x = "(concat " + strings.Join(parts, " ") + ")"
 			}
-			return &val{k: kArr, w: 8 * n, ty: t, t: []string{x}}
+			return &val{k: kArr, w: 8 * n, ty: t, t: []string{x}, arrRow: row, arrOff: off}
 		}
 	case *types.Struct:
 		v := &val{k: kStruct, ty: t}
